@@ -48,8 +48,8 @@ func runC09(c *Ctx) {
 	c.Rule("C09.path-copy", "walkInternal and walkInternalSorted pass to each child's visit a path built on a slice made inside the loop iteration (never an append onto the path parameter, whose spare capacity siblings would share)")
 
 	// ---- sorted
-	n := mapOrderAudit(c, "C09.sorted", []*ssa.Function{wis, str}, true)
-	c.Floor("C09.sorted/map-ranges", n, 2)
+	_, nRoots := mapOrderAudit(c, "C09.sorted", []*ssa.Function{wis, str}, true)
+	c.Floor("C09.sorted/functions-ranging-over-children", nRoots, 2)
 
 	// ---- conditional
 	deleteHonoursCondition(c, "C09.conditional")
